@@ -251,6 +251,25 @@ def sib5(ctx, pid):
                 tg = ctx.R.resolve_call(ev.node, f, count=False)[0]
                 if tg.kind == "cmeth" and tg.meth == "append" and isinstance(tg.recv, ast.Name) and tg.recv.id == "proof_update":
                     apps.add(eng.ev(ev.node.args[0], f, st))
+    # the leaf that is written is the given value itself
+    leafs = set()
+    for p, st in pq.states(ctx, f, unroll=1):
+        if p.exit[0] != "return":
+            continue
+        first = None
+        for ev in st.events:
+            if ev.k == "call" and ev.a == "ok":
+                tg = ctx.R.resolve_call(ev.node, f, count=False)[0]
+                if tg.kind == "cmeth" and tg.meth == "append" and isinstance(tg.recv, ast.Name) and tg.recv.id == "proof_update" and first is None:
+                    first = eng.ev(ev.node.args[0], f, st)
+        if first is not None:
+            leafs.add(first)
+    wleaf = ("call", KECCAK, (("p", f.params[2]),), ())
+    if leafs and leafs != {wleaf}:
+        # with one unrolled iteration the appended hash is the leaf's
+        ctx.bad("leaf-is-value:SparseMerkleTree.set", f.loc(), "the leaf written by set is `%s`, expected keccak(value) for exactly the given value (a blank value is stored as blank, not replaced)" % "; ".join(tstr(x)[:60] for x in leafs), rule="PROV10")
+    elif leafs:
+        ctx.ok("leaf-is-value:SparseMerkleTree.set", f.loc(), "the first hashed node is the given value", rule="PROV10")
     c = "returned-order:SparseMerkleTree.set"
     good_ret = rets and all(r[0] == "call" and r[1] == "ext:tuple" and r[2][0][0] == "call" and r[2][0][1] == "ext:reversed" for r in rets)
     good_app = apps and all(a[0] == "call" and a[1] == KECCAK for a in apps)
